@@ -486,7 +486,23 @@ func addVariantGroup(t *rapid.T, s *Spec, id int, seen map[string]bool) {
 	for _, k := range keys {
 		reps = append(reps, rep{[][]string{k}})
 	}
-	switch rapid.IntRange(0, 5).Draw(t, "groupmode") {
+	switch rapid.IntRange(0, 6).Draw(t, "groupmode") {
+	case 6:
+		if len(reps) >= 2 {
+			// overlap THROUGH a multi-key representation: rep i also claims the key of rep j, which stays.
+			// Every key is still covered and there are no more representations than keys, so neither a
+			// count nor a "some key is left uncovered" test sees it: only a per-key claim check does.
+			i := rapid.IntRange(0, len(reps)-1).Draw(t, "ovi")
+			j := rapid.IntRange(0, len(reps)-2).Draw(t, "ovj")
+			if j >= i {
+				j++
+			}
+			reps[i].keys = append(append([][]string{}, reps[i].keys...), reps[j].keys...)
+			if rapid.Bool().Draw(t, "ovfirst") { // the multi-key one before or after the one it overlaps
+				reps[i], reps[j] = reps[j], reps[i]
+			}
+			g.Defect = "overlap"
+		}
 	case 0:
 		if len(reps) >= 2 {
 			// merge two keys into one multi-key representation
